@@ -31,7 +31,6 @@ from __future__ import annotations
 import datetime as pydt
 import os
 import re
-import threading
 from calendar import isleap
 from collections import deque
 from decimal import Decimal
@@ -51,10 +50,10 @@ TIERS = {
         tlc_workers=4, parallel=6),
     'thorough': dict(
         sweep='thorough',
-        chains=[('11-full-1', dict(Xsd='11', GridName='full', MaxOps=1, LawOps=1, ImplicitTZ=0)),
-                ('10-full-1', dict(Xsd='10', GridName='full', MaxOps=1, LawOps=1, ImplicitTZ=0)),
-                ('11-small-2', dict(Xsd='11', GridName='small', MaxOps=2, LawOps=0, ImplicitTZ=0)),
-                ('10-small-2', dict(Xsd='10', GridName='small', MaxOps=2, LawOps=0, ImplicitTZ=0)),
+        chains=[('11-full-1', dict(Xsd='11', GridName='full', MaxOps=1, LawOps=0, ImplicitTZ=0)),
+                ('10-full-1', dict(Xsd='10', GridName='full', MaxOps=1, LawOps=0, ImplicitTZ=0)),
+                ('11-small-2', dict(Xsd='11', GridName='small', MaxOps=2, LawOps=1, ImplicitTZ=0)),
+                ('10-small-2', dict(Xsd='10', GridName='small', MaxOps=2, LawOps=1, ImplicitTZ=0)),
                 ('11-small-impl', dict(Xsd='11', GridName='small', MaxOps=1, LawOps=0, ImplicitTZ=330)),
                 ('10-small-impl', dict(Xsd='10', GridName='small', MaxOps=1, LawOps=0, ImplicitTZ=330))],
         tlc_workers=8, parallel=3),
@@ -774,15 +773,7 @@ def _tuplify(x):
 _sweep_re = re.compile(r'civ = <<(-?\d+), (\d+), (\d+)>>\\n/\\\\ n = (-?\d+)')
 
 
-def run_sweep(chk, conf, workers):
-    wd = os.path.join(chk.scratch, 'sweep')
-    dot = os.path.join(wd, 'g.dot')
-    cfg = tla.cfg_text(dict(Sweep=conf['sweep']), invariants=['SweepLaws'])
-    r = tla.require_ok(tla.run_tlc('CalendarSweep', cfg, wd, workers=workers, dump_dot=dot), 'CalendarSweep', min_distinct=1000)
-    return r, dot
-
-
-def check_sweep(chk, r, dot):
+def check_sweep(r, dot):
     """second oracle: python date.toordinal for every swept day of years 1..9999"""
     n = ce = 0
     with open(dot, encoding='utf-8') as f:
@@ -858,6 +849,28 @@ def load_chain(name, consts, dot, output):
     return cfg, edges, len(g.states)
 
 
+def model_worker(job):
+    """one TLC run (+ loading of its dump) in a forked worker"""
+    name, consts, scratch, conf = job
+    if name == 'sweep':
+        wd = os.path.join(scratch, 'sweep')
+        dot = os.path.join(wd, 'g.dot')
+        cfg = tla.cfg_text(dict(Sweep=conf['sweep']), invariants=['SweepLaws'])
+        r = tla.require_ok(tla.run_tlc('CalendarSweep', cfg, wd, workers=conf['tlc_workers'], dump_dot=dot),
+                           'CalendarSweep', min_distinct=1000)
+        n, ce = check_sweep(r, dot)
+        r.output = ''
+        return name, (r, n, ce)
+    wd = os.path.join(scratch, name)
+    dot = os.path.join(wd, 'g.dot')
+    cfg = tla.cfg_text(consts, invariants=['Laws'], properties=['LawsHold'])
+    r = tla.require_ok(tla.run_tlc('DateChain', cfg, wd, workers=conf['tlc_workers'], dump_dot=dot),
+                       f'DateChain/{name}', min_distinct=1000)
+    cfg2, edges, n_states = load_chain(name, consts, dot, r.output)
+    r.output = ''
+    return name, (r, cfg2, edges, n_states)
+
+
 def run(chk: core.Check) -> None:
     core.setup_repo_path()
     conf = TIERS[chk.tier]
@@ -868,42 +881,12 @@ def run(chk: core.Check) -> None:
         'XSD 1.0 year numbering is read as the proleptic Gregorian calendar without a year 0 (-0001 = 1 BCE, a leap year)',
         'not judged: Python attribute .year (documented no-year-zero convention of the classes), canonical duration strings (C10), overflow errors',
     ]
-    # ---- TLC: all models concurrently -------------------------------------------------------
-    results: dict = {}
-    errors: list = []
-    sem = threading.Semaphore(conf['parallel'])
-
-    def tlc_chain(name, consts):
-        with sem:
-            try:
-                wd = os.path.join(chk.scratch, name)
-                dot = os.path.join(wd, 'g.dot')
-                cfg = tla.cfg_text(consts, invariants=['Laws'], properties=['LawsHold'])
-                r = tla.require_ok(tla.run_tlc('DateChain', cfg, wd, workers=conf['tlc_workers'], dump_dot=dot),
-                                   f'DateChain/{name}', min_distinct=1000)
-                results[name] = (r, dot)
-            except Exception as e:  # noqa
-                errors.append(e)
-
-    def tlc_sweep():
-        with sem:
-            try:
-                results['sweep'] = run_sweep(chk, conf, conf['tlc_workers'])
-            except Exception as e:  # noqa
-                errors.append(e)
-
-    threads = [threading.Thread(target=tlc_chain, args=(n, c)) for n, c in conf['chains']]
-    threads.append(threading.Thread(target=tlc_sweep))
-    for t in threads:
-        t.start()
-    for t in threads:
-        t.join()
-    if errors:
-        raise errors[0]
+    # ---- TLC + graph loading: one forked worker per model, all models concurrently -----------------
+    mjobs = [('sweep', None, chk.scratch, conf)] + [(n, c, chk.scratch, conf) for n, c in conf['chains']]
+    mres = dict(core.pool_map(model_worker, mjobs, procs=conf['parallel']))
     # ---- calendar sweep ---------------------------------------------------------------------
-    r, dot = results['sweep']
+    r, n_days, n_ce = mres['sweep']
     chk.model(f'CalendarSweep/{conf["sweep"]}', r)
-    n_days, n_ce = check_sweep(chk, r, dot)
     chk.add('transitions', n_days)       # one law instance (round trip + odometer step) per swept day
     chk.coverage['sweep_days'] = n_days
     chk.coverage['sweep_days_cross_checked_with_python'] = n_ce
@@ -911,9 +894,8 @@ def run(chk: core.Check) -> None:
     # ---- chains -----------------------------------------------------------------------------
     jobs = []
     for name, consts in conf['chains']:
-        r, dot = results[name]
+        r, cfg, edges, n_states = mres[name]
         chk.model(f'DateChain/{name}', r)
-        cfg, edges, n_states = load_chain(name, consts, dot, r.output)
         CFGS[name] = cfg
         EDGES[name] = edges
         chk.add('transitions', len(edges))
